@@ -569,7 +569,7 @@ def _analyse_plane(root, ctype, name, tier):
 # R1.5: boundary-value analysis of the region structure (rules/C01_probe.py)
 PROBED = ("absolute", "square", "sqrt", "atan", "atanh", "asin", "acos", "asinh", "acosh", "log", "log1p", "log2", "log10", "exp")
 PROBE_SLOPES = {
-    "quick": (0, 1, 2, 3, 4, 6, 8, 12, 16, 24, 40),
+    "quick": (0, 1, 2, 4, 8, 16, 40),
     "thorough": tuple(range(0, 13)) + tuple(range(16, 65, 4)),
 }
 PROBE_SHIFTS = {"quick": (0,), "thorough": (-40, -20, -10, -3, -1, 0, 1, 3, 10, 20, 40)}
